@@ -73,207 +73,218 @@ func (e *exh) cmpKinds(fn *ssa.Function, ctx *Ctx, depth int, out map[string]boo
 	}
 }
 
-var ruleCmpMatrix = &Rule{
-	Name: "R-CMPMATRIX", NeedSSA: true,
-	Doc: "the comparison dispatcher is walked once per ordered pair of the 13 item types (169 cells): same kind ⇒ three-way comparison; the numeric tower is mutually comparable; null only with null (null rule otherwise); containers and mixed kinds ⇒ unknown; datetime 5×5: comparable iff both time-only or both date-bearing, guarded by the time-zone option iff zone-awareness differs, incomparable otherwise",
-	Run: func(p *Prog) *RuleOut {
-		out := newOut("R-CMPMATRIX")
-		e, err := p.exhEngine()
-		if err != nil {
-			out.undecided("engine", "-", "", err.Error())
-			return out
-		}
-		// the comparison callback: a (outcome, error) method with two `any`
-		// parameters that calls the operator-application function
-		var cmp *ssa.Function
-		for _, fn := range p.execFuncs() {
-			if p.pairKind(fn.Signature) != "pred" || !isMethodOfExecutor(p, fn) {
-				continue
+var ruleCmpMatrix = mkCmpMatrix("R-CMPMATRIX", false)
+var ruleCmpMatrixDT = mkCmpMatrix("R-CMPMATRIX-DT", true)
+
+func mkCmpMatrix(ruleName string, onlyDT bool) *Rule {
+	return &Rule{
+		Name: ruleName, NeedSSA: true,
+		Doc: map[bool]string{true: "(restricted to the 5×5 datetime cells) ", false: ""}[onlyDT] + "the comparison dispatcher is walked once per ordered pair of the 13 item types (169 cells): same kind ⇒ three-way comparison; the numeric tower is mutually comparable; null only with null (null rule otherwise); containers and mixed kinds ⇒ unknown; datetime 5×5: comparable iff both time-only or both date-bearing, guarded by the time-zone option iff zone-awareness differs, incomparable otherwise",
+		Run: func(p *Prog) *RuleOut {
+			out := newOut(ruleName)
+			e, err := p.exhEngine()
+			if err != nil {
+				out.undecided("engine", "-", "", err.Error())
+				return out
 			}
-			nAny := 0
-			for _, q := range fn.Params {
-				if it, ok := q.Type().Underlying().(*types.Interface); ok && it.NumMethods() == 0 {
-					nAny++
+			// the comparison callback: a (outcome, error) method with two `any`
+			// parameters that calls the operator-application function
+			var cmp *ssa.Function
+			for _, fn := range p.execFuncs() {
+				if p.pairKind(fn.Signature) != "pred" || !isMethodOfExecutor(p, fn) {
+					continue
 				}
-			}
-			if nAny != 2 {
-				continue
-			}
-			for _, b := range fn.Blocks {
-				for _, ins := range b.Instrs {
-					if c, ok := ins.(*ssa.Call); ok && c.Call.StaticCallee() != nil {
-						sig := c.Call.StaticCallee().Signature
-						if sig.Recv() == nil && sig.Params().Len() == 2 && p.pairKind(sig) == "pred" && p.enumOf(sig.Params().At(0).Type()) != nil {
-							cmp = fn
+				nAny := 0
+				for _, q := range fn.Params {
+					if it, ok := q.Type().Underlying().(*types.Interface); ok && it.NumMethods() == 0 {
+						nAny++
+					}
+				}
+				if nAny != 2 {
+					continue
+				}
+				for _, b := range fn.Blocks {
+					for _, ins := range b.Instrs {
+						if c, ok := ins.(*ssa.Call); ok && c.Call.StaticCallee() != nil {
+							sig := c.Call.StaticCallee().Signature
+							if sig.Recv() == nil && sig.Params().Len() == 2 && p.pairKind(sig) == "pred" && p.enumOf(sig.Params().At(0).Type()) != nil {
+								cmp = fn
+							}
 						}
 					}
 				}
 			}
-		}
-		if cmp == nil {
-			out.undecided("comparison dispatcher", "-", "", "anchor unresolved")
-			return out
-		}
-		var anyParams []*ssa.Parameter
-		var nodeParam *ssa.Parameter
-		for _, q := range cmp.Params {
-			if it, ok := q.Type().Underlying().(*types.Interface); ok && it.NumMethods() == 0 {
-				anyParams = append(anyParams, q)
+			if cmp == nil {
+				out.undecided("comparison dispatcher", "-", "", "anchor unresolved")
+				return out
 			}
-			if types.Identical(q.Type(), p.A.Node) {
-				nodeParam = q
+			var anyParams []*ssa.Parameter
+			var nodeParam *ssa.Parameter
+			for _, q := range cmp.Params {
+				if it, ok := q.Type().Underlying().(*types.Interface); ok && it.NumMethods() == 0 {
+					anyParams = append(anyParams, q)
+				}
+				if types.Identical(q.Type(), p.A.Node) {
+					nodeParam = q
+				}
 			}
-		}
-		base := e.contexts(cmp, e.depthCap)
-		if len(base) == 0 || nodeParam == nil {
-			out.undecided("comparison dispatcher", p.pos(cmp.Pos()), fnName(cmp), "no call context")
-			return out
-		}
-		T, _, conv, _ := p.predTF()
-		_ = T
-		isDT := func(t types.Type) bool {
-			pt, ok := t.(*types.Pointer)
-			if !ok {
+			base := e.contexts(cmp, e.depthCap)
+			if len(base) == 0 || nodeParam == nil {
+				out.undecided("comparison dispatcher", p.pos(cmp.Pos()), fnName(cmp), "no call context")
+				return out
+			}
+			T, _, conv, _ := p.predTF()
+			_ = T
+			isDT := func(t types.Type) bool {
+				pt, ok := t.(*types.Pointer)
+				if !ok {
+					return false
+				}
+				for _, d := range p.A.DateTimeImpls {
+					if pt.Elem() == types.Type(d) {
+						return true
+					}
+				}
 				return false
 			}
-			for _, d := range p.A.DateTimeImpls {
-				if pt.Elem() == types.Type(d) {
-					return true
+			dtName := func(t types.Type) string { return t.(*types.Pointer).Elem().(*types.Named).Obj().Name() }
+			kindOfT := func(t types.Type) string {
+				s := typeStr(t)
+				switch {
+				case s == "untyped nil":
+					return "null"
+				case s == "bool":
+					return "bool"
+				case s == "int64" || s == "float64" || s == "encoding/json.Number":
+					return "number"
+				case s == "string":
+					return "string"
+				case isDT(t):
+					return "datetime"
 				}
+				return "container"
 			}
-			return false
-		}
-		dtName := func(t types.Type) string { return t.(*types.Pointer).Elem().(*types.Named).Obj().Name() }
-		kindOfT := func(t types.Type) string {
-			s := typeStr(t)
-			switch {
-			case s == "untyped nil":
-				return "null"
-			case s == "bool":
-				return "bool"
-			case s == "int64" || s == "float64" || s == "encoding/json.Number":
-				return "number"
-			case s == "string":
-				return "string"
-			case isDT(t):
-				return "datetime"
-			}
-			return "container"
-		}
-		timeOnly := map[string]bool{"Time": true, "TimeTZ": true}
-		zoned := map[string]bool{"TimeTZ": true, "TimestampTZ": true}
-		ncell := 0
-		invalidBy := map[string][]string{}
-		for _, t1 := range p.A.ItemTypes {
-			for _, t2 := range p.A.ItemTypes {
-				ncell++
-				ctx := &Ctx{fn: cmp, bind: map[*ssa.Parameter]*AV{}, desc: "matrix cell"}
-				ctx.bind[nodeParam] = base[0].bind[nodeParam]
-				ctx.bind[anyParams[0]] = &AV{kind: "types", Types: []types.Type{t1}}
-				ctx.bind[anyParams[1]] = &AV{kind: "types", Types: []types.Type{t2}}
-				kinds := map[string]bool{}
-				calleeKinds := map[string]bool{}
-				viaCallee := false
-				for _, r := range e.feasibleReturns(cmp, ctx) {
-					o0, o1 := stripConv(r.Results[0]), stripConv(r.Results[1])
-					c0, _ := callOf(o0)
-					switch {
-					case c0 != nil && extractOf(c0, 1) == o1 && p.pairKind(calleeSig(c0)) == "pred":
-						kinds["threeway"] = true
-					case isNilConst(o1):
-						if k, ok := constInt(o0); ok && k == constOf(p.A.PredUnknown) {
-							kinds["unknown"] = true
-						} else if call, ok := o0.(*ssa.Call); ok && call.Call.StaticCallee() == conv {
-							// conv(op == NotEqual) is the null rule; conv(cmp == 0) a three-way result
-							arg := call.Call.Args[0]
-							if bo, ok := arg.(*ssa.BinOp); ok && p.enumOf(bo.X.Type()) != nil {
-								kinds["nullrule"] = true
+			timeOnly := map[string]bool{"Time": true, "TimeTZ": true}
+			zoned := map[string]bool{"TimeTZ": true, "TimestampTZ": true}
+			ncell := 0
+			invalidBy := map[string][]string{}
+			for _, t1 := range p.A.ItemTypes {
+				for _, t2 := range p.A.ItemTypes {
+					if onlyDT && !(isDT(t1) && isDT(t2)) {
+						continue
+					}
+					ncell++
+					ctx := &Ctx{fn: cmp, bind: map[*ssa.Parameter]*AV{}, desc: "matrix cell"}
+					ctx.bind[nodeParam] = base[0].bind[nodeParam]
+					ctx.bind[anyParams[0]] = &AV{kind: "types", Types: []types.Type{t1}}
+					ctx.bind[anyParams[1]] = &AV{kind: "types", Types: []types.Type{t2}}
+					kinds := map[string]bool{}
+					calleeKinds := map[string]bool{}
+					viaCallee := false
+					for _, r := range e.feasibleReturns(cmp, ctx) {
+						o0, o1 := stripConv(r.Results[0]), stripConv(r.Results[1])
+						c0, _ := callOf(o0)
+						switch {
+						case c0 != nil && extractOf(c0, 1) == o1 && p.pairKind(calleeSig(c0)) == "pred":
+							kinds["threeway"] = true
+						case isNilConst(o1):
+							if k, ok := constInt(o0); ok && k == constOf(p.A.PredUnknown) {
+								kinds["unknown"] = true
+							} else if call, ok := o0.(*ssa.Call); ok && call.Call.StaticCallee() == conv {
+								// conv(op == NotEqual) is the null rule; conv(cmp == 0) a three-way result
+								arg := call.Call.Args[0]
+								if bo, ok := arg.(*ssa.BinOp); ok && p.enumOf(bo.X.Type()) != nil {
+									kinds["nullrule"] = true
+								} else {
+									kinds["threeway"] = true
+								}
 							} else {
-								kinds["threeway"] = true
+								kinds["?const"] = true
 							}
+						default:
+							// (unknown, err) after the datetime comparison, or an invalid-error return
+							if c1, _ := callOf(o1); c1 != nil && c1.Call.StaticCallee() != nil && inModule(c1.Call.StaticCallee()) {
+								sub := map[string]bool{}
+								e.cmpKinds(c1.Call.StaticCallee(), e.subCtx(c1, c1.Call.StaticCallee(), ctx), 0, sub)
+								// the callee decides: its three-way answers leave through the
+								// operator-application return, the others through this one
+								viaCallee = true
+								for k := range sub {
+									calleeKinds[k] = true
+								}
+							} else {
+								cls := p.classNames(p.errors().classify(o1, factsAt(r.Instr.Block()), map[ssa.Value]bool{}))
+								if len(cls) == 1 && cls[0] == "Invalid" {
+									kinds["invalid"] = true
+								} else {
+									kinds["?"+strings.Join(cls, ",")] = true
+								}
+							}
+						}
+					}
+					if viaCallee {
+						delete(kinds, "threeway")
+						for k := range calleeKinds {
+							kinds[k] = true
+						}
+					}
+					got := sortedKeys(kinds)
+					k1, k2 := kindOfT(t1), kindOfT(t2)
+					var want []string
+					switch {
+					case k1 == "null" && k2 == "null":
+						want = []string{"threeway"}
+					case k1 == "null" || k2 == "null":
+						want = []string{"nullrule"}
+					case k1 == "container" || k2 == "container":
+						want = []string{"unknown"}
+					case k1 != k2:
+						want = []string{"unknown"}
+					case k1 == "number":
+						want = []string{"threeway"}
+						if typeStr(t1) == "encoding/json.Number" || typeStr(t2) == "encoding/json.Number" {
+							want = []string{"threeway", "unknown"} // a json.Number beyond float64 range compares as unknown
+						}
+					case k1 == "datetime":
+						n1, n2 := dtName(t1), dtName(t2)
+						if timeOnly[n1] != timeOnly[n2] {
+							want = []string{"incomparable"}
+						} else if zoned[n1] != zoned[n2] {
+							want = []string{"threeway", "tzerror"}
 						} else {
-							kinds["?const"] = true
+							want = []string{"threeway"}
 						}
 					default:
-						// (unknown, err) after the datetime comparison, or an invalid-error return
-						if c1, _ := callOf(o1); c1 != nil && c1.Call.StaticCallee() != nil && inModule(c1.Call.StaticCallee()) {
-							sub := map[string]bool{}
-							e.cmpKinds(c1.Call.StaticCallee(), e.subCtx(c1, c1.Call.StaticCallee(), ctx), 0, sub)
-							// the callee decides: its three-way answers leave through the
-							// operator-application return, the others through this one
-							viaCallee = true
-							for k := range sub {
-								calleeKinds[k] = true
-							}
-						} else {
-							cls := p.classNames(p.errors().classify(o1, factsAt(r.Instr.Block()), map[ssa.Value]bool{}))
-							if len(cls) == 1 && cls[0] == "Invalid" {
-								kinds["invalid"] = true
-							} else {
-								kinds["?"+strings.Join(cls, ",")] = true
-							}
-						}
-					}
-				}
-				if viaCallee {
-					delete(kinds, "threeway")
-					for k := range calleeKinds {
-						kinds[k] = true
-					}
-				}
-				got := sortedKeys(kinds)
-				k1, k2 := kindOfT(t1), kindOfT(t2)
-				var want []string
-				switch {
-				case k1 == "null" && k2 == "null":
-					want = []string{"threeway"}
-				case k1 == "null" || k2 == "null":
-					want = []string{"nullrule"}
-				case k1 == "container" || k2 == "container":
-					want = []string{"unknown"}
-				case k1 != k2:
-					want = []string{"unknown"}
-				case k1 == "number":
-					want = []string{"threeway"}
-					if typeStr(t1) == "encoding/json.Number" || typeStr(t2) == "encoding/json.Number" {
-						want = []string{"threeway", "unknown"} // a json.Number beyond float64 range compares as unknown
-					}
-				case k1 == "datetime":
-					n1, n2 := dtName(t1), dtName(t2)
-					if timeOnly[n1] != timeOnly[n2] {
-						want = []string{"incomparable"}
-					} else if zoned[n1] != zoned[n2] {
-						want = []string{"threeway", "tzerror"}
-					} else {
 						want = []string{"threeway"}
 					}
-				default:
-					want = []string{"threeway"}
+					key := fmt.Sprintf("cell %s × %s", typeStr(t1), typeStr(t2))
+					if strings.Join(got, ",") == strings.Join(want, ",") {
+						out.ok(key, p.pos(cmp.Pos()), fnName(cmp), strings.Join(got, "+"))
+						continue
+					}
+					if k1 == "datetime" && k2 != "datetime" && k2 != "null" && strings.Join(got, ",") == "invalid" {
+						invalidBy[dtName(t1)] = append(invalidBy[dtName(t1)], typeStr(t2))
+						continue
+					}
+					out.viol(key, p.pos(cmp.Pos()), fnName(cmp), fmt.Sprintf("comparison of these item types answers {%s}, the stated order requires {%s}", strings.Join(got, ", "), strings.Join(want, ", ")))
 				}
-				key := fmt.Sprintf("cell %s × %s", typeStr(t1), typeStr(t2))
-				if strings.Join(got, ",") == strings.Join(want, ",") {
-					out.ok(key, p.pos(cmp.Pos()), fnName(cmp), strings.Join(got, "+"))
-					continue
-				}
-				if k1 == "datetime" && k2 != "datetime" && k2 != "null" && strings.Join(got, ",") == "invalid" {
-					invalidBy[dtName(t1)] = append(invalidBy[dtName(t1)], typeStr(t2))
-					continue
-				}
-				out.viol(key, p.pos(cmp.Pos()), fnName(cmp), fmt.Sprintf("comparison of these item types answers {%s}, the stated order requires {%s}", strings.Join(got, ", "), strings.Join(want, ", ")))
 			}
-		}
-		for _, n := range sortedKeys(boolKeys(invalidBy)) {
-			rs := invalidBy[n]
-			sort.Strings(rs)
-			out.viol("datetime left "+n+" × non-datetime right", p.pos(cmp.Pos()), fnName(cmp),
-				"items of different types must compare as unknown, but a "+n+" compared with "+strings.Join(rs, ", ")+" returns the implementation-bug error ErrInvalid")
-		}
-		out.Counts["cells"] = ncell
-		out.Floors["cells"] = 169
-		return out
-	},
+			for _, n := range sortedKeys(boolKeys(invalidBy)) {
+				rs := invalidBy[n]
+				sort.Strings(rs)
+				out.viol("datetime left "+n+" × non-datetime right", p.pos(cmp.Pos()), fnName(cmp),
+					"items of different types must compare as unknown, but a "+n+" compared with "+strings.Join(rs, ", ")+" returns the implementation-bug error ErrInvalid")
+			}
+			out.Counts["cells"] = ncell
+			out.Floors["cells"] = 169
+			if onlyDT {
+				out.Floors["cells"] = 25
+			}
+			return out
+		},
+	}
 }
 
 func init() {
-	register(ruleCmpMatrix)
+	register(ruleCmpMatrix, ruleCmpMatrixDT)
 }
